@@ -741,7 +741,7 @@ def stage_models(ctx):
     from holopy.scattering.interface import validate_scatterer
     rng = ctx.subrng("models")
     exprs, metas = [], []
-    for k in range(ctx.n(150, 2500)):
+    for k in range(ctx.n(150, 900)):
         if k % 6 == 5:
             case = gen_shared_name_case(rng)
             ctx.count("stream:shared-name")
@@ -821,7 +821,7 @@ def tie_expr(ML, pc, tie, new_name):
 def stage_ties(ctx):
     rng = ctx.subrng("ties")
     exprs, metas = [], []
-    ncases = ctx.n(60, 500)
+    ncases = ctx.n(60, 110)
     for k in range(ncases):
         case = gen_tie_case(rng)
         m0, scat, P = build_model(case)
@@ -965,7 +965,7 @@ def stage_rebuild(ctx):
     """rebuilding from the own parameter dictionary gives an equal scatterer that shares no mutable state"""
     rng = ctx.subrng("rebuild")
     exprs, metas = [], []
-    for k in range(ctx.n(120, 1500)):
+    for k in range(ctx.n(120, 1000)):
         with_priors = rng.random() < 0.4
         if with_priors:
             G = Gen(rng)
@@ -1009,7 +1009,7 @@ def stage_rigid(ctx):
     import numpy as np
     rng = ctx.subrng("rigid")
     exprs, metas = [], []
-    for k in range(ctx.n(25, 200)):
+    for k in range(ctx.n(25, 100)):
         case = gen_case(rng, rigid=True)
         # rotation angles: the model carries integers; the real object gets integer/8 radians through a
         # transformation-free scaling of the VALUES, so build with angles as they are and compare exactly
